@@ -1,18 +1,22 @@
 (* Dumb pipe around the extracted model: one operation per line (space separated integers), a line "." ends a
    case; output one line per operation result, then ".".  The command word on the first line of a case selects
    the entry point. *)
+module BZ = Z   (* zarith: arbitrary-precision integers on the wire only (decimal text <-> the extracted inductive Z) *)
 open Model
 
-let rec pos_of_int (n : int) : positive =
-  if n = 1 then XH else if n land 1 = 0 then XO (pos_of_int (n lsr 1)) else XI (pos_of_int (n lsr 1))
-let z_of_int (n : int) : z = if n = 0 then Z0 else if n > 0 then Zpos (pos_of_int n) else Zneg (pos_of_int (-n))
-let rec int_of_pos (p : positive) : int = match p with XH -> 1 | XO q -> 2 * int_of_pos q | XI q -> 2 * int_of_pos q + 1
-let int_of_z (x : z) : int = match x with Z0 -> 0 | Zpos p -> int_of_pos p | Zneg p -> - (int_of_pos p)
+let rec pos_of_bz (n : BZ.t) : positive =
+  if BZ.equal n BZ.one then XH
+  else if BZ.testbit n 0 then XI (pos_of_bz (BZ.shift_right n 1)) else XO (pos_of_bz (BZ.shift_right n 1))
+let z_of_bz (n : BZ.t) : z =
+  if BZ.sign n = 0 then Z0 else if BZ.sign n > 0 then Zpos (pos_of_bz n) else Zneg (pos_of_bz (BZ.neg n))
+let rec bz_of_pos (p : positive) : BZ.t =
+  match p with XH -> BZ.one | XO q -> BZ.shift_left (bz_of_pos q) 1 | XI q -> BZ.succ (BZ.shift_left (bz_of_pos q) 1)
+let bz_of_z (x : z) : BZ.t = match x with Z0 -> BZ.zero | Zpos p -> bz_of_pos p | Zneg p -> BZ.neg (bz_of_pos p)
 
 let parse_line (s : string) : z list =
-  String.split_on_char ' ' s |> List.filter (fun x -> x <> "") |> List.map (fun x -> z_of_int (int_of_string x))
+  String.split_on_char ' ' s |> List.filter (fun x -> x <> "") |> List.map (fun x -> z_of_bz (BZ.of_string x))
 let print_line (l : z list) =
-  print_string (String.concat " " (List.map (fun x -> string_of_int (int_of_z x)) l)); print_newline ()
+  print_string (String.concat " " (List.map (fun x -> BZ.to_string (bz_of_z x)) l)); print_newline ()
 
 let () =
   let buf = ref [] in
